@@ -40,13 +40,13 @@ Definition check (c : case) : N :=
   | CEnc v o =>
     code (oeqb (enc v) o)
          (if spec_in_range v
-          then oeqb o (Ok (spec_encode (layout_of (kind_of v)) (fields_of v)))
+          then oeqb o (Ok (spec_encode_k (kind_of v) (fields_of v)))
           else true)
   | CDec k bs o =>
     let L := layout_of k in
     code (peqb (dec k bs) o)
          (if Nat.eqb (length bs) (byte_size L)
-          then peqb o (Ok (value_of k (spec_decode L bs)))
+          then peqb o (Ok (value_of k (spec_decode_k k bs)))
           else is_err o)
   | CReg up cid o =>
     code (option_eqb (fun a b => (fst a =? fst b)%Z && kind_eqb (snd a) (snd b))
